@@ -1041,8 +1041,8 @@ def normalise(M, fn, subst: bool = False, guards: bool = False, keep=(), comps: 
     if subst:
         _split_tuple_assigns(node)
         _forward_subst(node, set(keep), alias_only=(subst == "alias"))
-    elif closures:
-        # only the temporaries introduced for the closures' arguments are put back
+    else:
+        # only the temporaries the normaliser itself introduced for helper / closure arguments are put back (single use)
         _forward_subst(node, {n.id for n in ast.walk(node) if isinstance(n, ast.Name) and not n.id.startswith("__")}, alias_only=True)
     node = _OperatorCalls(M, fn).visit(node)
     ast.fix_missing_locations(node)
